@@ -97,12 +97,17 @@ def make_job(noise):
 
 
 def jobs(tier):
-    return [make_job(n) for n in ('diagonal', 'scalar', 'additive', 'general')]
+    # the reverse run is driven by ReverseBrownian(bm) (possibly of an already reversed motion): its contract is part of the argument
+    from props import wrapper_jobs as WJ
+    return [make_job(n) for n in ('diagonal', 'scalar', 'additive', 'general')] + [WJ.job_wrappers('C15')]
 
 
 def canaries(tier):
     R = 'torchsde._core.methods.reversible_heun'
     return [
+        {'name': 'reverse-of-reverse-unwrapped', 'job': 'wrappers',
+         'patches': [('torchsde._brownian.derived', '        super(ReverseBrownian, self).__init__()\n        self.base_brownian = base_brownian\n',
+                      '        super(ReverseBrownian, self).__init__()\n        self.base_brownian = base_brownian.base_brownian if isinstance(base_brownian, ReverseBrownian) else base_brownian\n')]},
         {'name': 'z-update-coefficient', 'job': 'revheun-general',
          'patches': [(R, 'z1 = 2 * y0 - z0 + f0 * dt + self.sde.prod(g0, dW)', 'z1 = 2 * y0 - z0 + f0 * dt + self.sde.prod(g0, dW) * 0.5')]},
         {'name': 'y-update-uses-f0-only', 'job': 'revheun-diagonal',
